@@ -52,16 +52,20 @@ def gen_points(rng, axE, axB, n):
     return loge, beta
 
 
-MARGIN = 2e-15  # the code's blended row may differ from the oracle's by a few ulps; "strictly
-# inside the row's CDF range" is therefore taken with this margin at both ends
+# u ranges over the generator's whole range [0, 1): np.random.uniform can return 0.0 and 1 - 2^-53,
+# and stratified / quasi-random sequences start at exactly 0. A blended CDF row ends a few ulps
+# below 1, so the largest u lie (by rounding) above the row's last value: the inverse there is
+# the last node. (Before fix D14 the sampler raised for u = 0 and for u above the blended row's
+# last value; the check used to stay 2e-15 inside the row's range and never saw it.)
+U_MAX = 1.0 - 2.0**-53
 
 
 def lo_inside(rows):
-    return np.where(rows[:, 0] == 0.0, 5e-324, rows[:, 0] + MARGIN)
+    return np.zeros(rows.shape[0])
 
 
 def hi_inside(rows):
-    return rows[:, -1] - MARGIN
+    return np.full(rows.shape[0], U_MAX)
 
 
 def classify(beta, bmin, bmax):
@@ -103,6 +107,10 @@ def run(ctx):
                 uhi = np.minimum(uu + FTOL, rows[:, -1])
                 _, zlo, _ = T.invert_rows(rows, axZ, np.maximum(ulo, np.nextafter(rows[:, 0], 1)))
                 _, _, zhi = T.invert_rows(rows, axZ, np.minimum(uhi, np.nextafter(rows[:, -1], 0)))
+                # at the two ends of the row the inverse is a whole plateau: every z from the first node
+                # that reaches the row's last value up to the last node (and likewise at the start)
+                zhi = np.where(uu + FTOL >= rows[:, -1], axZ[-1], zhi)
+                zlo = np.where(uu - FTOL <= rows[:, 0], axZ[0], zlo)
                 ctx.count("inverse", int(look.sum()))
                 badinv = ~((zz >= zlo * (1 - 1e-10)) & (zz <= zhi * (1 + 1e-10)))
                 # range
@@ -152,11 +160,11 @@ def run(ctx):
                 if size >= 8:
                     beta[[0, 1, 2, 3]] = [np.nextafter(bmax, 1), bmax, np.nextafter(bmin, 0), bmin]
             cls = classify(beta, bmin, bmax)
-            # u strictly inside each row's range, incl. hostile values and plateau (node) values
+            # u over the whole of [0, 1 - 2^-53], incl. hostile values and plateau (node) values
             rows = T.bilinear(cdat, axE, axB, loge, np.clip(beta, bmin, bmax))
             u = rng.uniform(0, 1, size)
             hk = rng.random(size)
-            u = np.where(hk < 0.05, rng.choice(rngctl.HOSTILE_OPEN, size), u)
+            u = np.where(hk < 0.05, rng.choice(rngctl.HOSTILE_UNIT[:-1], size), u)
             nodev = rows[np.arange(size), rng.integers(0, axZ.size, size)]
             u = np.where((hk > 0.9), nodev, u)
             u = np.clip(u, lo_inside(rows), hi_inside(rows))
@@ -198,7 +206,7 @@ def run(ctx):
                     ctx.exception("raises", f"table v{version}: grid_cdf_sampler raised on in-table input", e, {"version": version})
             # explicit u vs internal generator fed a constant
             if bi % 3 == 0:
-                c = float(rng.choice([0.5, 0.123456789, 1e-9, 1 - 1e-9, 5e-324]))
+                c = float(rng.choice([0.5, 0.123456789, 1e-9, 1 - 1e-9, 5e-324, 0.0, U_MAX]))
                 c = float(np.clip(c, lo_inside(rows).max(), hi_inside(rows).min()))
                 try:
                     with rngctl.stub(rngctl.constant(c)) as sp:
@@ -281,6 +289,6 @@ def run(ctx):
     for m in ("pipeline", "call", "forward", "inverse", "range", "monotone", "low", "high", "reject", "explicit", "explicit-spy", "sampler-direct"):
         ctx.require(m)
     return ctx.finish(
-        rule="per table version: batches of size {1,2,8191,8192,8193,20000} in compositions {all in-table, all below-min, all above-max, mixed 25 % / 80 % / 0.2 % above-max}; (logE, beta) from nodes, cell centres, cell edges and interior; u uniform plus hostile values (denormal .. 1-2^-53) and exact node CDF values, clipped strictly inside the blended row's range; a case is a distinct (version, logE, beta, u)",
+        rule="per table version: batches of size {1,2,8191,8192,8193,20000} in compositions {all in-table, all below-min, all above-max, mixed 25 % / 80 % / 0.2 % above-max}; (logE, beta) from nodes, cell centres, cell edges and interior; u uniform on [0, 1) plus hostile values (0, denormal .. 1-2^-53) and exact node CDF values incl. the first and last of each row; a case is a distinct (version, logE, beta, u)",
         assumptions=["h5py reads the shipped tables", "F is the piecewise-linear function through the bilinearly blended node values", "'negligible' read as 0 < z <= 1e-5", "rejection demanded only when the out-of-table energy belongs to an event whose angle is looked up"],
     )
